@@ -22,6 +22,7 @@ import GceTcb.Drive.C13
 import GceTcb.Drive.C14
 import GceTcb.Drive.C15
 import GceTcb.Drive.C16
+import GceTcb.Drive.C16Fs
 import GceTcb.Drive.C17
 import GceTcb.Drive.C18
 import GceTcb.Drive.C19
@@ -62,6 +63,7 @@ def dispatch (line : String) : String :=
     | "c14" => Drive.C14.handle f
     | "c15" => Drive.C15.handle f
     | "c16" => Drive.C16.handle f
+    | "c16fs" => Drive.C16Fs.handle f
     | "c17" => Drive.C17.handle f
     | "c18" => Drive.C18.handle f
     | "c19" => Drive.C19.handle f
